@@ -28,6 +28,17 @@ def step_of_call(idx):
     return clock_vars(idx)[1]
 
 
+def hotp_is_first(st, c):
+    """hotp.ValidateCustom is tried for the period of the request, then the previous and the next one: is c the first of its triple?"""
+    c = z3.simplify(lib.tobv(c)); firsts = st.aux.setdefault('hotp_first', [])
+    for f in firsts:
+        d = z3.simplify(c - f)
+        if z3.is_bv_value(d):
+            if d.as_long() == 0: return True
+            if d.as_long() in (1, 2**64 - 1): return False
+    firsts.append(c); return True
+
+
 def setup(ir, ndev=1, budget=400):
     H = HandlerRun(ir, loop_bound=8, budget_s=budget); ex = H.ex; ex.ptr_nilable = False
     for k, v in sweep.STORAGE.items(): H.stub(k, v)
